@@ -780,3 +780,442 @@ Proof.
   rewrite r16_w16 by (auto; lia).
   apply Z.eqb_eq. rewrite <- E. f_equal. lia.
 Qed.
+
+(* ------------------------------------------------------------------------------------- *)
+(* field layout facts (from Gen.WireFields: changing an offset in the source re-checks these) *)
+(* ------------------------------------------------------------------------------------- *)
+
+Definition field16_ok (f : Z * Z) : Prop :=
+  0 <= fst f /\ snd f = fst f + 2 /\ Nat.even (Z.to_nat (fst f)) = true.
+
+Lemma ipv4_field_ok : field16_ok wipv4_f_CHECKSUM /\ wipv4_f_VER_IHL = 0.
+Proof. unfold field16_ok. vm_compute. intuition congruence. Qed.
+Lemma icmpv4_field_ok : field16_ok wicmpv4_f_CHECKSUM.
+Proof. unfold field16_ok. vm_compute. intuition congruence. Qed.
+Lemma icmpv6_field_ok : field16_ok wicmpv6_f_CHECKSUM.
+Proof. unfold field16_ok. vm_compute. intuition congruence. Qed.
+Lemma tcp_field_ok : field16_ok wtcp_f_CHECKSUM.
+Proof. unfold field16_ok. vm_compute. intuition congruence. Qed.
+Lemma udp_field_ok : field16_ok wudp_f_CHECKSUM /\ field16_ok wudp_f_LENGTH /\
+  snd wudp_f_LENGTH <= fst wudp_f_CHECKSUM.
+Proof. unfold field16_ok. vm_compute. intuition congruence. Qed.
+
+Definition foff (f : Z * Z) : nat := Z.to_nat (fst f).
+
+Lemma write_u16_ok' : forall l f v, field16_ok f -> snd f <= Z.of_nat (length l) ->
+  cksum_write_u16 l f v = Ok (w16 l (foff f) v).
+Proof.
+  intros l [a b] v [H0 [H1 _]] Hl. cbn [fst snd] in *. subst b. apply write_u16_ok. exact Hl.
+Qed.
+
+Lemma write_u16_panic : forall l f v, Z.of_nat (length l) < snd f -> cksum_write_u16 l f v = Panic.
+Proof. intros. unfold cksum_write_u16. destruct (snd f <=? Z.of_nat (length l)) eqn:E; [lia | reflexivity]. Qed.
+
+Lemma read_u16_ok' : forall l f, field16_ok f -> snd f <= Z.of_nat (length l) ->
+  cksum_read_u16 l f = Ok (r16 l (foff f)).
+Proof.
+  intros l [a b] [H0 [H1 _]] Hl. cbn [fst snd] in *. subst b. apply read_u16_ok; lia.
+Qed.
+
+Lemma read_u16_panic' : forall l f, field16_ok f -> Z.of_nat (length l) < snd f ->
+  cksum_read_u16 l f = Panic.
+Proof.
+  intros l [a b] [H0 [H1 _]] Hl. cbn [fst snd] in *. subst b. apply read_u16_panic; lia.
+Qed.
+
+Lemma foff_lt : forall f (l : list Z), field16_ok f -> snd f <= Z.of_nat (length l) ->
+  (S (foff f) < length l)%nat.
+Proof. intros [a b] l [H0 [H1 _]] Hl. unfold foff. cbn [fst snd] in *. lia. Qed.
+
+Lemma r16_range : forall l a, bytes l -> 0 <= r16 l a <= 65535.
+Proof. intros. unfold r16. pose proof (nth_bytes l a H). pose proof (nth_bytes l (S a) H). lia. Qed.
+
+(* ------------------------------------------------------------------------------------- *)
+(* TCP                                                                                    *)
+(* ------------------------------------------------------------------------------------- *)
+
+Definition tcp_P (src dst : cksum_ipaddr) (p : list Z) : Z :=
+  ph_sum (addr_octets src) (addr_octets dst) cksum_PROTO_TCP (Z.of_nat (length p)).
+
+Lemma ph_nonneg : forall src dst nh len, addr_ok src -> addr_ok dst -> 0 <= nh ->
+  0 <= ph_sum (addr_octets src) (addr_octets dst) nh len.
+Proof. intros src dst nh len [? _] [? _] ?. apply ph_sum_nonneg; auto. Qed.
+
+Lemma tcp_verify_shape : forall dbg be src dst p, bytes p ->
+  addr_ok src -> addr_ok dst -> same_family src dst ->
+  Z.of_nat (length p) <= cksum_max_len ->
+  cksum_tcp_verify dbg be src dst p = Ok (gen_verify (tcp_P src dst p) p).
+Proof.
+  intros dbg be src dst p Bp As Ad Hf Hl. unfold cksum_tcp_verify.
+  rewrite pseudo_header_eq by (auto; unfold cksum_PROTO_TCP; lia). cbn [obind].
+  rewrite data_eq_rfc1071 by auto. cbn [obind]. rewrite rfc1071_sum_norm by auto.
+  rewrite combine2_norm by (try apply besum_nonneg; try apply ph_nonneg; auto; unfold cksum_PROTO_TCP; lia).
+  reflexivity.
+Qed.
+
+Lemma tcp_fill_shape : forall dbg be src dst p, bytes p ->
+  addr_ok src -> addr_ok dst -> same_family src dst ->
+  snd wtcp_f_CHECKSUM <= Z.of_nat (length p) <= cksum_max_len ->
+  cksum_tcp_fill dbg be src dst p =
+    Ok (w16 p (foff wtcp_f_CHECKSUM) (gen_cksum (tcp_P src dst p) p (foff wtcp_f_CHECKSUM))).
+Proof.
+  intros dbg be src dst p Bp As Ad Hf Hl. unfold cksum_tcp_fill.
+  pose proof tcp_field_ok as Fk.
+  rewrite write_u16_ok' by (auto; lia). cbn [obind]. rewrite w16_length.
+  rewrite pseudo_header_eq by (auto; unfold cksum_PROTO_TCP; lia). cbn [obind].
+  assert (B0 : bytes (w16 p (foff wtcp_f_CHECKSUM) 0)) by (apply w16_bytes; auto; lia).
+  rewrite data_eq_rfc1071 by (rewrite ?w16_length; auto; lia). cbn [obind].
+  rewrite rfc1071_sum_norm by auto.
+  rewrite combine2_norm by (try apply besum_nonneg; try apply ph_nonneg; auto; unfold cksum_PROTO_TCP; lia).
+  rewrite write_u16_ok' by (rewrite ?w16_length; auto; lia).
+  rewrite w16_w16. reflexivity.
+Qed.
+
+Lemma tcp_fill_then_verify : forall dbg be src dst p, bytes p ->
+  addr_ok src -> addr_ok dst -> same_family src dst ->
+  snd wtcp_f_CHECKSUM <= Z.of_nat (length p) <= cksum_max_len ->
+  exists p', cksum_tcp_fill dbg be src dst p = Ok p' /\ length p' = length p /\ bytes p' /\
+             cksum_tcp_verify dbg be src dst p' = Ok true.
+Proof.
+  intros dbg be src dst p Bp As Ad Hf Hl.
+  pose proof tcp_field_ok as Fk.
+  assert (HP : 0 <= tcp_P src dst p) by (apply ph_nonneg; auto; unfold cksum_PROTO_TCP; lia).
+  eexists. split; [apply tcp_fill_shape; auto|].
+  split; [apply w16_length|].
+  assert (B' : bytes (w16 p (foff wtcp_f_CHECKSUM) (gen_cksum (tcp_P src dst p) p (foff wtcp_f_CHECKSUM)))).
+  { apply w16_bytes; auto. apply gen_cksum_range; auto. }
+  split; [exact B'|].
+  rewrite tcp_verify_shape by (rewrite ?w16_length; auto; lia).
+  unfold tcp_P. rewrite w16_length. fold (tcp_P src dst p).
+  rewrite gen_fill_verify; [reflexivity | exact HP | exact Bp | apply Fk | apply foff_lt; auto; lia].
+Qed.
+
+(* ------------------------------------------------------------------------------------- *)
+(* ICMPv6                                                                                 *)
+(* ------------------------------------------------------------------------------------- *)
+
+Definition v6_ok (o : list Z) : Prop := bytes o /\ length o = 16%nat.
+
+Definition icmpv6_P (src dst p : list Z) : Z :=
+  ph_sum src dst cksum_PROTO_ICMPV6 (Z.of_nat (length p)).
+
+Lemma icmpv6_verify_shape : forall dbg be src dst p, bytes p -> v6_ok src -> v6_ok dst ->
+  Z.of_nat (length p) <= cksum_max_len ->
+  cksum_icmpv6_verify dbg be src dst p = Ok (gen_verify (icmpv6_P src dst p) p).
+Proof.
+  intros dbg be src dst p Bp [Bs Ls] [Bd Ld] Hl. unfold cksum_icmpv6_verify.
+  rewrite pseudo_header_v6_eq by (auto; unfold cksum_PROTO_ICMPV6, cksum_max_len; lia). cbn [obind].
+  rewrite data_eq_rfc1071 by auto. cbn [obind]. rewrite rfc1071_sum_norm by auto.
+  rewrite combine2_norm by (try apply besum_nonneg; try apply ph_sum_nonneg; auto; unfold cksum_PROTO_ICMPV6; lia).
+  reflexivity.
+Qed.
+
+Lemma icmpv6_fill_shape : forall dbg be src dst p, bytes p -> v6_ok src -> v6_ok dst ->
+  snd wicmpv6_f_CHECKSUM <= Z.of_nat (length p) <= cksum_max_len ->
+  cksum_icmpv6_fill dbg be src dst p =
+    Ok (w16 p (foff wicmpv6_f_CHECKSUM) (gen_cksum (icmpv6_P src dst p) p (foff wicmpv6_f_CHECKSUM))).
+Proof.
+  intros dbg be src dst p Bp [Bs Ls] [Bd Ld] Hl. unfold cksum_icmpv6_fill.
+  pose proof icmpv6_field_ok as Fk.
+  rewrite write_u16_ok' by (auto; lia). cbn [obind]. rewrite w16_length.
+  rewrite pseudo_header_v6_eq by (auto; unfold cksum_PROTO_ICMPV6, cksum_max_len; lia). cbn [obind].
+  assert (B0 : bytes (w16 p (foff wicmpv6_f_CHECKSUM) 0)) by (apply w16_bytes; auto; lia).
+  rewrite data_eq_rfc1071 by (rewrite ?w16_length; auto; lia). cbn [obind].
+  rewrite rfc1071_sum_norm by auto.
+  rewrite combine2_norm by (try apply besum_nonneg; try apply ph_sum_nonneg; auto; unfold cksum_PROTO_ICMPV6; lia).
+  rewrite write_u16_ok' by (rewrite ?w16_length; auto; lia).
+  rewrite w16_w16. reflexivity.
+Qed.
+
+Lemma icmpv6_fill_then_verify : forall dbg be src dst p, bytes p -> v6_ok src -> v6_ok dst ->
+  snd wicmpv6_f_CHECKSUM <= Z.of_nat (length p) <= cksum_max_len ->
+  exists p', cksum_icmpv6_fill dbg be src dst p = Ok p' /\ length p' = length p /\ bytes p' /\
+             cksum_icmpv6_verify dbg be src dst p' = Ok true.
+Proof.
+  intros dbg be src dst p Bp As Ad Hl.
+  pose proof icmpv6_field_ok as Fk.
+  assert (HP : 0 <= icmpv6_P src dst p)
+    by (destruct As, Ad; apply ph_sum_nonneg; auto; unfold cksum_PROTO_ICMPV6; lia).
+  eexists. split; [apply icmpv6_fill_shape; auto|].
+  split; [apply w16_length|].
+  assert (B' : bytes (w16 p (foff wicmpv6_f_CHECKSUM)
+                        (gen_cksum (icmpv6_P src dst p) p (foff wicmpv6_f_CHECKSUM)))).
+  { apply w16_bytes; auto. apply gen_cksum_range; auto. }
+  split; [exact B'|].
+  rewrite icmpv6_verify_shape by (rewrite ?w16_length; auto; lia).
+  unfold icmpv6_P. rewrite w16_length. fold (icmpv6_P src dst p).
+  rewrite gen_fill_verify; [reflexivity | exact HP | exact Bp | apply Fk | apply foff_lt; auto; lia].
+Qed.
+
+(* ------------------------------------------------------------------------------------- *)
+(* ICMPv4                                                                                 *)
+(* ------------------------------------------------------------------------------------- *)
+
+Lemma icmpv4_verify_shape : forall dbg be p, bytes p -> Z.of_nat (length p) <= cksum_max_len ->
+  cksum_icmpv4_verify dbg be p = Ok (gen_verify 0 p).
+Proof.
+  intros dbg be p Bp Hl. unfold cksum_icmpv4_verify, gen_verify.
+  rewrite data_eq_rfc1071 by auto. cbn [obind]. rewrite rfc1071_sum_norm by auto.
+  rewrite Z.add_0_l. reflexivity.
+Qed.
+
+Lemma icmpv4_fill_shape : forall dbg be p, bytes p ->
+  snd wicmpv4_f_CHECKSUM <= Z.of_nat (length p) <= cksum_max_len ->
+  cksum_icmpv4_fill dbg be p =
+    Ok (w16 p (foff wicmpv4_f_CHECKSUM) (gen_cksum 0 p (foff wicmpv4_f_CHECKSUM))).
+Proof.
+  intros dbg be p Bp Hl. unfold cksum_icmpv4_fill.
+  pose proof icmpv4_field_ok as Fk.
+  rewrite write_u16_ok' by (auto; lia). cbn [obind].
+  assert (B0 : bytes (w16 p (foff wicmpv4_f_CHECKSUM) 0)) by (apply w16_bytes; auto; lia).
+  rewrite data_eq_rfc1071 by (rewrite ?w16_length; auto; lia). cbn [obind].
+  rewrite rfc1071_sum_norm by auto.
+  rewrite write_u16_ok' by (rewrite ?w16_length; auto; lia).
+  rewrite w16_w16. unfold gen_cksum, cksum_not16. rewrite Z.add_0_l. reflexivity.
+Qed.
+
+Lemma icmpv4_fill_then_verify : forall dbg be p, bytes p ->
+  snd wicmpv4_f_CHECKSUM <= Z.of_nat (length p) <= cksum_max_len ->
+  exists p', cksum_icmpv4_fill dbg be p = Ok p' /\ length p' = length p /\ bytes p' /\
+             cksum_icmpv4_verify dbg be p' = Ok true.
+Proof.
+  intros dbg be p Bp Hl.
+  pose proof icmpv4_field_ok as Fk.
+  eexists. split; [apply icmpv4_fill_shape; auto|].
+  split; [apply w16_length|].
+  assert (B' : bytes (w16 p (foff wicmpv4_f_CHECKSUM) (gen_cksum 0 p (foff wicmpv4_f_CHECKSUM)))).
+  { apply w16_bytes; auto. apply gen_cksum_range; auto. lia. }
+  split; [exact B'|].
+  rewrite icmpv4_verify_shape by (rewrite ?w16_length; auto; lia).
+  rewrite gen_fill_verify; [reflexivity | lia | exact Bp | apply Fk | apply foff_lt; auto; lia].
+Qed.
+
+(* ------------------------------------------------------------------------------------- *)
+(* IPv4 header                                                                            *)
+(* ------------------------------------------------------------------------------------- *)
+
+Definition ipv4_hl (p : list Z) : Z := Z.land (nth 0 p 0) 15 * 4.
+
+Lemma ipv4_hl_range : forall p, 0 <= ipv4_hl p <= 60.
+Proof.
+  intros. unfold ipv4_hl. change 15 with (Z.ones 4). rewrite Z.land_ones by lia.
+  change (2 ^ 4) with 16. lia.
+Qed.
+
+Lemma ipv4_header_len_ok : forall p, (0 < length p)%nat -> cksum_ipv4_header_len p = Ok (ipv4_hl p).
+Proof.
+  intros p Hl. unfold cksum_ipv4_header_len, ipv4_hl.
+  destruct ipv4_field_ok as [_ ->]. destruct p as [|b t]; [cbn in Hl; lia|]. reflexivity.
+Qed.
+
+Lemma ipv4_header_len_panic : cksum_ipv4_header_len [] = Panic.
+Proof. unfold cksum_ipv4_header_len. destruct ipv4_field_ok as [_ ->]. reflexivity. Qed.
+
+Definition ipv4_region (p : list Z) : list Z := firstn (Z.to_nat (ipv4_hl p)) p.
+
+Lemma ipv4_verify_shape : forall dbg be p, bytes p -> (0 < length p)%nat ->
+  ipv4_hl p <= Z.of_nat (length p) ->
+  cksum_ipv4_verify dbg be p = Ok (gen_verify 0 (ipv4_region p)).
+Proof.
+  intros dbg be p Bp H0 Hl. unfold cksum_ipv4_verify, gen_verify, ipv4_region.
+  pose proof (ipv4_hl_range p) as Hr.
+  rewrite ipv4_header_len_ok by auto. cbn [obind].
+  rewrite slice_to_ok by lia. cbn [obind].
+  rewrite data_eq_rfc1071
+    by (auto using bytes_firstn; rewrite firstn_length; unfold cksum_max_len; lia).
+  cbn [obind]. rewrite rfc1071_sum_norm by auto using bytes_firstn.
+  rewrite Z.add_0_l. reflexivity.
+Qed.
+
+Lemma ipv4_hl_w16 : forall p v, ipv4_hl (w16 p (foff wipv4_f_CHECKSUM) v) = ipv4_hl p.
+Proof.
+  intros. unfold ipv4_hl. rewrite nth_w16_other; [reflexivity | |];
+    destruct ipv4_field_ok as [_ _]; vm_compute; lia.
+Qed.
+
+Lemma ipv4_fill_shape : forall dbg be p, bytes p ->
+  snd wipv4_f_CHECKSUM <= ipv4_hl p <= Z.of_nat (length p) ->
+  cksum_ipv4_fill dbg be p =
+    Ok (w16 p (foff wipv4_f_CHECKSUM) (gen_cksum 0 (ipv4_region p) (foff wipv4_f_CHECKSUM))).
+Proof.
+  intros dbg be p Bp Hl. unfold cksum_ipv4_fill.
+  destruct ipv4_field_ok as [Fk _]. pose proof (ipv4_hl_range p) as Hr.
+  assert (H0 : (0 < length p)%nat) by (destruct Fk as [? [? _]]; lia).
+  rewrite write_u16_ok' by (auto; lia). cbn [obind].
+  rewrite ipv4_header_len_ok by (rewrite w16_length; auto). cbn [obind].
+  rewrite ipv4_hl_w16.
+  rewrite slice_to_ok by (rewrite w16_length; lia). cbn [obind].
+  assert (Hn : (S (foff wipv4_f_CHECKSUM) < Z.to_nat (ipv4_hl p))%nat)
+    by (destruct Fk as [? [? _]]; unfold foff; lia).
+  rewrite firstn_w16 by exact Hn. fold (ipv4_region p).
+  assert (Br : bytes (ipv4_region p)) by (apply bytes_firstn; auto).
+  assert (B0 : bytes (w16 (ipv4_region p) (foff wipv4_f_CHECKSUM) 0)) by (apply w16_bytes; auto; lia).
+  rewrite data_eq_rfc1071
+    by (auto; rewrite w16_length; unfold ipv4_region; rewrite firstn_length; unfold cksum_max_len; lia).
+  cbn [obind]. rewrite rfc1071_sum_norm by auto.
+  rewrite write_u16_ok' by (rewrite ?w16_length; auto; lia).
+  rewrite w16_w16. unfold gen_cksum, cksum_not16. rewrite Z.add_0_l. reflexivity.
+Qed.
+
+Lemma ipv4_fill_then_verify : forall dbg be p, bytes p ->
+  snd wipv4_f_CHECKSUM <= ipv4_hl p <= Z.of_nat (length p) ->
+  exists p', cksum_ipv4_fill dbg be p = Ok p' /\ length p' = length p /\ bytes p' /\
+             cksum_ipv4_verify dbg be p' = Ok true.
+Proof.
+  intros dbg be p Bp Hl.
+  destruct ipv4_field_ok as [Fk _]. pose proof (ipv4_hl_range p) as Hr.
+  assert (H0 : (0 < length p)%nat) by (destruct Fk as [? [? _]]; lia).
+  assert (Hn : (S (foff wipv4_f_CHECKSUM) < Z.to_nat (ipv4_hl p))%nat)
+    by (destruct Fk as [? [? _]]; unfold foff; lia).
+  assert (Br : bytes (ipv4_region p)) by (apply bytes_firstn; auto).
+  eexists. split; [apply ipv4_fill_shape; auto|].
+  split; [apply w16_length|].
+  match goal with |- bytes ?x /\ _ => assert (B' : bytes x) end.
+  { apply w16_bytes; auto. apply gen_cksum_range; auto. lia. }
+  split; [exact B'|].
+  rewrite ipv4_verify_shape by (rewrite ?w16_length, ?ipv4_hl_w16; auto; lia).
+  unfold ipv4_region at 1. rewrite ipv4_hl_w16, firstn_w16 by exact Hn. fold (ipv4_region p).
+  rewrite gen_fill_verify; [reflexivity | lia | exact Br | apply Fk |].
+  unfold ipv4_region. rewrite firstn_length. lia.
+Qed.
+
+(* ------------------------------------------------------------------------------------- *)
+(* UDP                                                                                    *)
+(* ------------------------------------------------------------------------------------- *)
+
+Definition udp_len (p : list Z) : Z := r16 p (foff wudp_f_LENGTH).
+Definition udp_ck (p : list Z) : Z := r16 p (foff wudp_f_CHECKSUM).
+Definition udp_region (p : list Z) : list Z := firstn (Z.to_nat (udp_len p)) p.
+Definition udp_P (src dst : cksum_ipaddr) (p : list Z) : Z :=
+  ph_sum (addr_octets src) (addr_octets dst) cksum_PROTO_UDP (udp_len p).
+
+Lemma udp_len_range : forall p, bytes p -> 0 <= udp_len p <= 65535.
+Proof. intros. apply r16_range; auto. Qed.
+
+Lemma udp_len_w16 : forall p v, udp_len (w16 p (foff wudp_f_CHECKSUM) v) = udp_len p.
+Proof. intros. unfold udp_len. apply r16_w16_other. vm_compute. lia. Qed.
+
+Lemma udp_verify_shape : forall dbg be src dst p, bytes p ->
+  addr_ok src -> addr_ok dst -> same_family src dst ->
+  snd wudp_f_CHECKSUM <= Z.of_nat (length p) -> udp_len p <= Z.of_nat (length p) ->
+  cksum_udp_verify dbg be src dst p =
+    Ok (if udp_ck p =? 0 then cksum_is_v4 src && cksum_is_v4 dst
+        else gen_verify (udp_P src dst p) (udp_region p)).
+Proof.
+  intros dbg be src dst p Bp As Ad Hf Hl Hlen. unfold cksum_udp_verify, cksum_udp_checksum, cksum_udp_len.
+  destruct udp_field_ok as [Fc [Fl Ho]]. pose proof (udp_len_range p Bp) as Hr.
+  rewrite read_u16_ok' by auto. cbn [obind]. fold (udp_ck p).
+  destruct (udp_ck p =? 0) eqn:Ec.
+  - unfold same_family in Hf. destruct src, dst; cbn [cksum_is_v4] in *; try discriminate; reflexivity.
+  - rewrite read_u16_ok' by (auto; destruct Fc as [? [? _]]; lia). cbn [obind]. fold (udp_len p).
+    rewrite pseudo_header_eq by (auto; unfold cksum_PROTO_UDP; lia). cbn [obind].
+    rewrite slice_to_ok by lia. cbn [obind]. fold (udp_region p).
+    assert (Br : bytes (udp_region p)) by (apply bytes_firstn; auto).
+    rewrite data_eq_rfc1071
+      by (auto; unfold udp_region; rewrite firstn_length; unfold cksum_max_len; lia).
+    cbn [obind]. rewrite rfc1071_sum_norm by auto.
+    rewrite combine2_norm
+      by (try apply besum_nonneg; try apply ph_nonneg; auto; unfold cksum_PROTO_UDP; lia).
+    reflexivity.
+Qed.
+
+Definition udp_fill_value (src dst : cksum_ipaddr) (p : list Z) : Z :=
+  let c := gen_cksum (udp_P src dst p) (udp_region p) (foff wudp_f_CHECKSUM) in
+  if c =? 0 then 65535 else c.
+
+Lemma udp_fill_shape : forall dbg be src dst p, bytes p ->
+  addr_ok src -> addr_ok dst -> same_family src dst ->
+  snd wudp_f_CHECKSUM <= udp_len p <= Z.of_nat (length p) ->
+  cksum_udp_fill dbg be src dst p = Ok (w16 p (foff wudp_f_CHECKSUM) (udp_fill_value src dst p)).
+Proof.
+  intros dbg be src dst p Bp As Ad Hf Hl. unfold cksum_udp_fill, cksum_udp_len.
+  destruct udp_field_ok as [Fc [Fl Ho]]. pose proof (udp_len_range p Bp) as Hr.
+  rewrite write_u16_ok' by (auto; lia). cbn [obind].
+  rewrite read_u16_ok' by (rewrite ?w16_length; auto; destruct Fc as [? [? _]]; lia). cbn [obind].
+  fold (udp_len (w16 p (foff wudp_f_CHECKSUM) 0)). rewrite udp_len_w16.
+  rewrite pseudo_header_eq by (auto; unfold cksum_PROTO_UDP; lia). cbn [obind].
+  rewrite slice_to_ok by (rewrite w16_length; lia). cbn [obind].
+  assert (Hn : (S (foff wudp_f_CHECKSUM) < Z.to_nat (udp_len p))%nat)
+    by (destruct Fc as [? [? _]]; unfold foff; lia).
+  rewrite firstn_w16 by exact Hn. fold (udp_region p).
+  assert (Br : bytes (udp_region p)) by (apply bytes_firstn; auto).
+  assert (B0 : bytes (w16 (udp_region p) (foff wudp_f_CHECKSUM) 0)) by (apply w16_bytes; auto; lia).
+  rewrite data_eq_rfc1071
+    by (auto; rewrite w16_length; unfold udp_region; rewrite firstn_length; unfold cksum_max_len; lia).
+  cbn [obind]. rewrite rfc1071_sum_norm by auto.
+  rewrite combine2_norm
+    by (try apply besum_nonneg; try apply ph_nonneg; auto; unfold cksum_PROTO_UDP; lia).
+  rewrite write_u16_ok' by (rewrite ?w16_length; auto; lia).
+  rewrite w16_w16. reflexivity.
+Qed.
+
+Lemma udp_fill_then_verify : forall dbg be src dst p, bytes p ->
+  addr_ok src -> addr_ok dst -> same_family src dst ->
+  snd wudp_f_CHECKSUM <= udp_len p <= Z.of_nat (length p) ->
+  exists p', cksum_udp_fill dbg be src dst p = Ok p' /\ length p' = length p /\ bytes p' /\
+             cksum_udp_checksum p' = Ok (udp_ck p') /\ udp_ck p' <> 0 /\
+             cksum_udp_verify dbg be src dst p' = Ok true.
+Proof.
+  intros dbg be src dst p Bp As Ad Hf Hl.
+  destruct udp_field_ok as [Fc [Fl Ho]]. pose proof (udp_len_range p Bp) as Hr.
+  assert (HP : 0 <= udp_P src dst p) by (apply ph_nonneg; auto; unfold cksum_PROTO_UDP; lia).
+  assert (Hn : (S (foff wudp_f_CHECKSUM) < Z.to_nat (udp_len p))%nat)
+    by (destruct Fc as [? [? _]]; unfold foff; lia).
+  assert (Br : bytes (udp_region p)) by (apply bytes_firstn; auto).
+  assert (Hrl : (S (foff wudp_f_CHECKSUM) < length (udp_region p))%nat)
+    by (unfold udp_region; rewrite firstn_length; lia).
+  destruct (gen_fill_verify_udp (udp_P src dst p) (udp_region p) (foff wudp_f_CHECKSUM) HP Br
+              ltac:(apply Fc) Hrl) as [Hc Hv].
+  fold (udp_fill_value src dst p) in Hc, Hv.
+  eexists. split; [apply udp_fill_shape; auto|].
+  split; [apply w16_length|].
+  match goal with |- bytes ?x /\ _ => assert (B' : bytes x) by (apply w16_bytes; auto; lia) end.
+  split; [exact B'|].
+  assert (Eck : udp_ck (w16 p (foff wudp_f_CHECKSUM) (udp_fill_value src dst p)) = udp_fill_value src dst p).
+  { unfold udp_ck. apply r16_w16; [apply foff_lt; auto; lia | lia]. }
+  split; [unfold cksum_udp_checksum; apply read_u16_ok'; rewrite ?w16_length; auto; lia|].
+  split; [rewrite Eck; lia|].
+  rewrite udp_verify_shape by (rewrite ?w16_length, ?udp_len_w16; auto; lia).
+  rewrite Eck. destruct (udp_fill_value src dst p =? 0) eqn:E0; [lia|].
+  unfold udp_P, udp_region. rewrite udp_len_w16. fold (udp_P src dst p).
+  rewrite firstn_w16 by exact Hn. fold (udp_region p). rewrite Hv. reflexivity.
+Qed.
+
+(* udp_zero_only_v4: a zero checksum field is accepted ("no checksum") exactly when the
+   pseudo header is IPv4; over IPv6 the packet is rejected, also by Repr::parse's gate *)
+Lemma udp_zero_only_v4 : forall dbg be src dst p,
+  snd wudp_f_CHECKSUM <= Z.of_nat (length p) -> udp_ck p = 0 ->
+  cksum_udp_verify dbg be src dst p = Ok (cksum_is_v4 src && cksum_is_v4 dst) /\
+  cksum_udp_parse_check true dbg be src dst p = Ok (cksum_is_v4 src && cksum_is_v4 dst).
+Proof.
+  intros dbg be src dst p Hl E0.
+  destruct udp_field_ok as [Fc _].
+  assert (V : cksum_udp_verify dbg be src dst p = Ok (cksum_is_v4 src && cksum_is_v4 dst)).
+  { unfold cksum_udp_verify, cksum_udp_checksum. rewrite read_u16_ok' by auto. cbn [obind].
+    fold (udp_ck p). rewrite E0. cbn [Z.eqb]. destruct src, dst; reflexivity. }
+  split; [exact V|].
+  unfold cksum_udp_parse_check. rewrite V. cbn [obind].
+  destruct src, dst; cbn [cksum_is_v4 andb]; reflexivity.
+Qed.
+
+(* enforcement at the wire level: with rx checksumming on, a packet that does not verify
+   does not get through Repr::parse's checksum gate *)
+Lemma parse_rejects_bad_checksum : forall dbg be,
+  (forall p, cksum_ipv4_verify dbg be p = Ok false -> cksum_ipv4_parse_check true dbg be p = Ok false) /\
+  (forall p, cksum_icmpv4_verify dbg be p = Ok false -> cksum_icmpv4_parse_check true dbg be p = Ok false) /\
+  (forall s d p, cksum_icmpv6_verify dbg be s d p = Ok false ->
+                 cksum_icmpv6_parse_check true dbg be s d p = Ok false) /\
+  (forall s d p, cksum_tcp_verify dbg be s d p = Ok false ->
+                 cksum_tcp_parse_check true dbg be s d p = Ok false) /\
+  (forall s d p, cksum_udp_verify dbg be s d p = Ok false ->
+                 cksum_udp_parse_check true dbg be s d p = Ok false).
+Proof.
+  intros dbg be. repeat split; intros; try assumption.
+  unfold cksum_udp_parse_check. rewrite H. cbn [obind].
+  (* verify = false excludes a zero checksum field over IPv4 *)
+  unfold cksum_udp_verify in H.
+  destruct (cksum_udp_checksum p) as [ck| |] eqn:Ek; cbn [obind] in *; try discriminate.
+  destruct (ck =? 0) eqn:E0.
+  - destruct s, d; try discriminate; reflexivity.
+  - destruct s, d; reflexivity.
+Qed.
